@@ -410,6 +410,19 @@ func runOnce(t *testing.T, c *Check, p *Plan) *Outcome {
 	rand.Seed(int64(p.Seed))
 	out := c.Run(t, p)
 	beat("idle")
+	// Goroutines left over at the end of a run are harness trouble when nothing
+	// else is wrong; when the run already shows a violation of this property they
+	// are its consequence (e.g. a sampler instance that was lost, and so never
+	// stopped), and the violation is what gets reported.
+	if out.Harness != "" && strings.Contains(out.Harness, "blocked goroutines remain") {
+		for _, v := range out.Violations {
+			if v.Prop == c.ID {
+				out.Logf("note: goroutines were left over at the end of this run")
+				out.Harness = ""
+				break
+			}
+		}
+	}
 	return out
 }
 
